@@ -51,6 +51,27 @@ template <typename T> static int abs_(Z a) {
   Z got = mp::SafeAbs((T)a); Z exact = a < 0 ? -a : a;
   return verdict(false, got, exact, true);
 }
+// mixed forms: SafeInt<T> op U (left) and U op SafeInt<T> (right): exact in Z or OverflowError
+template <typename T, typename U> static int mixed(const char *op, bool left, Z a, Z b) {
+  Z sa = left ? a : b, pu = left ? b : a;          // the SafeInt operand and the plain operand
+  if (!fits<T>(sa) || !fits<U>(pu)) { printf("operand outside its type\n"); return 0; }
+  Z exact = !strcmp(op, "add") ? a + b : !strcmp(op, "sub") ? a - b : a * b;
+  bool threw = false; Z got = 0;
+  try {
+    mp::SafeInt<T> x((T)sa); U y = (U)pu;
+    if (left) { if (!strcmp(op, "add")) got = val(x + y); else if (!strcmp(op, "sub")) got = val(x - y); else got = val(x * y); }
+    else { if (!strcmp(op, "add")) got = val(y + x); else if (!strcmp(op, "sub")) got = val(y - x); else got = val(y * x); }
+  } catch (const mp::OverflowError &) { threw = true; }
+  return verdict(threw, got, exact, fits<T>(exact) && fits<T>(pu));   // the plain operand itself must be representable in T (it is converted first)
+}
+template <typename T> static int mixed_u(const std::string &U_, const char *op, bool left, Z a, Z b) {
+  if (U_ == "int") return mixed<T, int>(op, left, a, b);
+  if (U_ == "unsigned") return mixed<T, unsigned>(op, left, a, b);
+  if (U_ == "long") return mixed<T, long long>(op, left, a, b);
+  if (U_ == "ulong") return mixed<T, unsigned long long>(op, left, a, b);
+  if (U_ == "size_t") return mixed<T, std::size_t>(op, left, a, b);
+  return 2;
+}
 #define DISPATCH_T(T_, expr) \
   if (T_ == "int") { typedef int T; return expr; } \
   if (T_ == "unsigned") { typedef unsigned T; return expr; } \
@@ -71,6 +92,7 @@ int main(int argc, char **argv) {
   Z a = parse(argv[4]), b = parse(argv[5]);
   if (op == "ctor") { DISPATCH_T(T_, ctor_u<T>(U_, a)); return 2; }
   if (op == "abs") { DISPATCH_T(T_, abs_<T>(a)); return 2; }
+  if (argc > 6 && (!strcmp(argv[6], "L") || !strcmp(argv[6], "R"))) { bool left = argv[6][0] == 'L'; DISPATCH_T(T_, mixed_u<T>(U_, op.c_str(), left, a, b)); return 2; }
   DISPATCH_T(T_, binop<T>(op.c_str(), a, b));
   return 2;
 }
